@@ -417,6 +417,21 @@ InvProg(c) == LET fd == InvFns[c.fn] IN
   [P0(<<Global(<<"cbcall", "cbcall2">>)>> \o fd.pre \o [i \in 1..3 |-> InvCall(c.how[i], fd.args[i], i)] \o <<Ret(I(0))>>)
     EXCEPT !.mods = ModsOf(1), !.globals = HostGlobals]
 InvIdx == [f : {"inv"}, fn : 1..Len(InvFns), how : [1..3 -> {"in", "cb", "cb2"}]]
+          \cup [f : {"invseq"}, fn : 1..Len(InvFns) + 2, how : {"cbseq", "cbseq2"}, perm : 1..3]
+\* one Invoker used for a history of calls (child VM re-used without release in between)
+SeqFns == InvFns \o <<
+  \* recursion in statement position that ends in an uncaught throw, then ordinary calls
+  [pre |-> <<Var("f"), Asg("f", Fn(<<"k">>, FALSE, <<If(Bin("==", Id("k"), I(9)), <<Ret(I(42))>>, <<>>), If(Bin("==", Id("k"), I(0)), <<Thr(S("bottom"))>>, <<>>),
+                                                     ExprS(C1(Id("f"), Bin("-", Id("k"), I(1))))>>))>>, args |-> << <<I(9)>>, <<I(2)>>, <<I(9)>> >>],
+  \* error inside try/finally of the invoked function escaping to the host, then a normal call
+  [pre |-> <<Def("f", Fn(<<"k">>, FALSE, <<Try(<<If(Bin("==", Id("k"), I(1)), <<Thr(S("one"))>>, <<>>)>>, FALSE, "", <<>>, TRUE, <<Log(S("fin"))>>), Ret(Bin("+", Id("k"), I(1)))>>))>>,
+   args |-> << <<I(1)>>, <<I(5)>>, <<I(1)>> >>]
+>>
+Perm(as, p) == CASE p = 1 -> as [] p = 2 -> <<as[2], as[3], as[1]>> [] p = 3 -> <<as[3], as[1], as[2]>>
+InvSeqProg(c) == LET fd == SeqFns[c.fn]  as == Perm(fd.args, c.perm) IN
+  [P0(<<Global(<<"cbcall", "cbcall2", "cbseq", "cbseq2">>)>> \o fd.pre
+      \o <<Ret(Call(Id(c.how), <<Id("f"), Arr([i \in 1..3 |-> Arr(as[i])])>>))>>)
+    EXCEPT !.mods = ModsOf(1), !.globals = [x \in {"cbcall", "cbcall2", "cbseq", "cbseq2"} |-> VBi(x)]]
 
 (* ---------------------------------------------------------- the states *)
 FamSeq(f) == CASE f = "closure" -> Closure [] f = "assign" -> Assign [] f = "const" -> ConstProgs
@@ -448,6 +463,7 @@ ProgOf(c) == CASE c.f \in {"closure", "assign", "const"} -> P0(FamSeq(c.f)[c.i])
                [] c.f = "frag" -> [P0(FragSeqs[c.s]) EXCEPT !.mods = ModsOf(1)]
                [] c.f = "epi" -> P0(EpiProg(c))
                [] c.f = "inv" -> InvProg(c)
+               [] c.f = "invseq" -> InvSeqProg(c)
 
 VARIABLES c, ph
 vars == <<c, ph>>
